@@ -212,7 +212,7 @@ def who_may(rep):
         sites = who_constructs(prog, adt)
         rep.floor("construction sites of " + adt.split("::")[-1], len(sites), 2)
         for b, bi, s in sites:
-            root = root_body(prog, b)
+          for root in owners_of(prog, b, stop=lambda r: r.id in allowed):
             k = "%s in %s" % (adt.split("::")[-1], root.desc["qpath"].split("::")[-2] + "::" + root.desc["name"])
             if root.id in allowed:
                 rep.ok("who-may-construct", k, sample="accepting arm of %s" % root.path)
